@@ -183,6 +183,11 @@ func vfArrive(g *vfGhost, tag string) {
 			// C12-O3: after the recovery period the breaker is back in standby, traffic passes
 			verifAssert("recovery-over-standby", verifAnd(s1 == stateStandby, passed))
 		}
+		if s0 == stateRecovering && !now.After(until0) {
+			// the recovery period includes its last instant: standby only at the first request
+			// after its end, until then the ramp decides
+			verifAssert("recovery-period-includes-its-end", s1 == stateRecovering)
+		}
 		if s1 == stateRecovering {
 			verifAssert("recovery-until", cb.rc != nil)
 		}
